@@ -23,7 +23,11 @@ _SEM_RULE = ("rapid: well-typed MRO programs built type-directed from a generate
              "map calls of stages over arrays / typed maps (static literals, pipeline inputs, run-time stage outputs) inside the envelope recorded in "
              "known_findings.json; top-level literal arguments; x a generated schedule: which pending job finishes next, 1-3 completions between scheduler "
              "rounds, rounds drawn from refresh/step patterns {rs, s, r, rss, rrs, srs}. Stage outputs are pseudo-random conforming values keyed by a hash of "
-             "everything the job received. ")
+             "everything the job received, arrays of length 0-5, written in one of three JSON styles (Go, Python with \\uXXXX escapes, escaped slashes), string values "
+             "that double as file names with characters that need escaping. Stage signatures draw most element types from a per-program palette so that outputs fit "
+             "inputs; a map call without a run-time collection in scope gets a producer call inserted (about 13% of the map calls split over a collection produced at run "
+             "time); consumers of the merged output of a map call are generated on purpose; some stage inputs are 'view' structs mirroring another stage's outputs, "
+             "bound to the whole call. ")
 
 _SEM_ASSUME = ["harness/refsem/eval.go states the dataflow semantics (conversion = drop undeclared struct fields; projection distributes over arrays and typed maps; "
                "disabled or empty mapped calls yield null / empty / collection of nulls)",
@@ -52,7 +56,7 @@ CHECKS = {
         "technique": "property-based testing (rapid): invariant over the logical event history of generated adversarial completion schedules vs the reference dependency relation",
         "level_text": ("At every job start the harness checks, against the reference model's value provenance (weakest reading: only producers the consumed values "
                        "actually derive from, per instance), that every producer instance has finished, that split < chunks < join inside a fork, and that preflights "
-                       "of enclosing pipelines are done; schedules are generated (which pending job finishes, how many scheduler steps / journal scans in between). Exploration."),
+                       "of enclosing pipelines are done; schedules are generated (which pending job finishes, how many scheduler steps / journal scans in between). Also checked at every job start of runs that are interrupted 1-3 times and re-attached with jobs in flight (queued, alive, alive with outputs written but no completion marker, finished unnoticed, dead, given up and reporting later). Exploration."),
         "level_note": "In E1 'start' is the hand-over to the job manager; real process start times are covered by the E2 sample.",
         "rule": _SEM_RULE + "Non-trivial (C02): at some point >= 2 jobs were pending and a job other than the oldest was finished first, or a dependency crosses a pipeline boundary, or forks are expanded at run time. Interrupted runs (TestInterruptOrder): the same invariants at every job start of runs in which the pipestance object is abandoned 1-3 times with jobs in flight (queued, alive, alive with outputs / stage defs written but no completion marker, finished unnoticed, dead after writing outputs) and re-attached; non-trivial: the interruption fell inside the run.",
         "assumptions": _SEM_ASSUME,
@@ -83,7 +87,7 @@ CHECKS = {
                        "backslashes; both modifier syntaxes; split / split using; wildcard bindings) printed with random whitespace, comments before every kind of element and, separately flagged, "
                        "dangling comments. Oracles: the formatted text parses; a reflective AST comparison (ignoring locations, comment attachment, call order, int-vs-integral-float spelling) finds "
                        "the same program; compiled views are EquivalentCall both ways with identical call-graph JSON; no comment is lost, and without dangling comments each is kept exactly once and "
-                       "Format(Format(s)) == Format(s); the include-expanded rendering of a three-file diamond compiles alone to an equivalent program with the same call graph. Exploration."),
+                       "Format(Format(s)) == Format(s); the include-expanded rendering of a three-file diamond compiles alone to an equivalent program with the same call graph. Calls carry several modifiers in mixed keyword / using syntax, using entries in any order, calls written in any order (often reversed), dotted file type names. Exploration."),
         "level_note": "Invalid UTF-8 inside string literals is treated as outside 'source text' (covered by C08).",
         "rule": ("rapid program generator (C01's, plus decoration) x Layout draws; non-trivial: the text has a comment, a backslash escape, an exponent or a using clause; distinct by hash of the source text. "
                  "Include test: every case non-trivial (three files, diamond, nested directory)."),
@@ -103,7 +107,7 @@ CHECKS = {
         "level_text": ("For generated programs with wide map / struct literals (up to 9 keys), several split arguments and 0 or 2-4 injected independent type errors (including several bad entries "
                        "inside one unordered literal): formatted text, compile error text, include-expanded source and call-graph JSON are computed 12 times and must be byte-identical; Go "
                        "randomises map iteration per range statement, so an unsorted traversal over k >= 4 keys survives 11 repetitions with probability < 1e-10. Runtime part: the same program "
-                       "driven three times under a fixed FIFO schedule must give the same directory listing (fork ids) and the same per-fork _invocation files. Exploration."),
+                       "driven three times under a fixed FIFO schedule must give the same directory listing (fork ids) and the same per-fork _invocation files. Also: bursts of 2-5 declaration-level errors in one scope (17 families), the strictest enforcement level, calls in any order, and formatting with include fixing over declarations spread across files with some includes missing and some callables declared nowhere. Exploration."),
         "level_note": "Separate OS processes are not compared (pointer- or time-dependent output would differ between in-process repetitions as well, because every repetition allocates afresh).",
         "rule": ("rapid program generator (C09 configuration, collections up to 9 entries) x optional 2-4 ill-typed mutations; non-trivial: >= 8 key/value pairs in the text or >= 2 injected errors. "
                  "Run part: C01 generator, non-trivial: >= 3 fork directories. Distinct by hash of the source."),
@@ -214,7 +218,7 @@ CHECKS = {
                        "'chunks' / is cut off.  Oracle: the pipestance state becomes failed and never complete; GetFatalError names the failing stage and carries the error text; no job whose "
                        "call depends on the failed call is ever handed to the job manager (C02 oracle); jobs of independent calls keep receiving the model's arguments; the lock is released when "
                        "mrp gives up; after re-attaching without the fault only work that had not completed (for rejected outputs: the fork that produced them) is executed, the run completes and "
-                       "the final outputs equal the model's; then optionally a second fault elsewhere. Exploration."),
+                       "the final outputs equal the model's; then optionally a second fault elsewhere. Faults include unreadable outputs of any chunk of a splitting stage (first, middle, last). Exploration."),
         "level_note": ("Exit codes, signals and the python adapter's own error paths are what mrjob / martian_shell.py turn into _errors / _assert; exercising those processes, mrp's exit status "
                        "and --autoretry is done by the E2 unit (TestE2Faults: exit code, SIGKILL of the stage process, error pipe, ASSERT:, broken _outs / _stage_defs; mrp exits non-zero, "
                        "names the stage (an assertion: carries its message), no dependent ran, retry budget respected, restart without the fault completes).  The python adapter is not exercised."),
@@ -234,7 +238,9 @@ CHECKS = {
         "level_text": ("A: the C01 program generator (weighted to composed conversions) x stage outputs with nulls at any depth, driven through the real Pipestance at "
                        "EnforceError: no failure, every _args value validates against its parameter type under harness/refsem.Valid. B: ~1e5 mutants per run (wrong base type, "
                        "array depth +-1, array vs map, unknown / missing parameter, missing / extra struct field, inconsistent split collections, reference to a missing output "
-                       "or field), each must give a compile error whose text names a line inside the mutated call. Exploration."),
+                       "or field, the unnamed output of a stage bound through the legacy 'x = CALL' shorthand to a parameter it cannot convert to, the output of a map call "
+                       "bound one dimension short), with the calls of a pipeline written in dependency order or in any other order; each must give a compile error whose text "
+                       "names a line inside the mutated call. Exploration."),
         "level_note": "Mutations that a documented coercion could make legal are not generated; acceptance completeness is not claimed (compiler rejections of generated programs are generator issues).",
         "rule": ("A: rapid programs + schedules as for C01 at EnforceError with output null rate in {0,5,20}%; non-trivial: >= 1 job and >= 1 projection / sub-pipeline boundary / map call "
                  "(an implicit conversion site exercised at run time). B: generated program x one ill-typed mutation; every mutant is non-trivial; distinct by hash of the source."),
@@ -243,7 +249,8 @@ CHECKS = {
             U("props/run", "TestC07Accept", (450, 8), (8000, 10)),
             U("props/lang", "TestC07Reject", (12000, 6), (150000, 6)),
         ],
-        "floors": {"quick": {"accept-run": 2000, "reject": 50000, "mut:split-mismatch:length": 500, "mut:wrong-literal:struct-missing-field": 300}},
+        "floors": {"quick": {"accept-run": 2000, "reject": 50000, "mut:split-mismatch:length": 500, "mut:wrong-literal:struct-missing-field": 300,
+                             "mut:mapped-output-depth:array": 1000, "mut:wrong-default-shorthand:float-for-int": 100}},
     },
     "C08": {
         "level": "exploration",
@@ -282,7 +289,7 @@ CHECKS = {
         "technique": "property-based testing (rapid): round trip through a real /bin/sh of quoted strings and of job scripts rendered from the shipped templates",
         "level_text": ("Generated-input search with /bin/sh as oracle: strings over a shell-metacharacter-weighted alphabet (plus template placeholder "
                        "names) are quoted and evaluated by sh; job scripts rendered from fake_remote/sge/lsf templates start a reporter program whose "
-                       "argv, environment, redirection targets must equal the generated originals. Exploration, not proof."),
+                       "argv, environment, redirection targets must equal the generated originals. Strings include runs of 2-5 of one character (blank lines, spaces, backslashes). Exploration, not proof."),
         "level_note": "Trusts /bin/sh (dash) as the POSIX shell; cluster schedulers' own parsing of #$/#BSUB directive lines is not exercised.",
         "rule": ("rapid strings without NUL over an alphabet weighted to shell metacharacters, hostile words ($(..), `..`, ${VAR}, placeholder names "
                  "__MRO_*__), used as program directory, argument, environment value, metadata (stdout/stderr) directory. Non-trivial: contains >= 1 shell "
@@ -322,7 +329,7 @@ CHECKS = {
                        "volatile=false) is left unless the stage output naming it is statically bound by a top-level output or a retain (judged per output parameter, the granularity the runtime "
                        "tracks); every path listed in any _vdrkill is gone and lies inside the pipestance; every written entry that is gone is covered by a reported path; each fork's report "
                        "count and size equal the number and lstat sizes (recorded when the job finished) of the entries written under that fork that are gone; a sentinel directory next to "
-                       "the pipestance is byte-identical. Exploration."),
+                       "the pipestance is byte-identical. Classes forks-mixed-file-presence / dynamic-forks-mixed-file-presence count runs in which forks of one call do and do not hold a file for the same output. Exploration."),
         "level_note": "A third of the E1 runs make one job fail after it wrote its files and restart the pipestance (reset of the attempt's directory, partial reports across the restart); the E2 unit (TestE2Files) checks tmp directories, chunk files, survivors and reported paths under the real mrp with VDR racing the jobs; exact count/size accounting is checked on E1 only.",
         "rule": "as C04; non-trivial: VDR enabled, >= 1 written entry removed and >= 1 file kept by a top-level output or retain; classes: mode, must-go-files, kept-and-removed.",
         "assumptions": _SEM_ASSUME + ["stages obey the contract: a returned path names a file the job wrote itself under its own files directory"],
@@ -338,7 +345,7 @@ CHECKS = {
         "level_text": ("Pairs (A, B): B is A re-laid-out, re-commented, with old-style modifiers, split over an include diamond, or with a file type renamed (must be equivalent both ways), or A "
                        "after exactly one meaning-changing edit at depth 0-3 of the call closure - call alias, a literal deep inside an argument, swapped same-typed bindings / return bindings, "
                        "stage input renamed / retyped / added, output added, split toggled, disabling condition added / dropped / re-pointed, top-level argument changed (must be refused both ways). "
-                       "Exploration."),
+                       "Wildcard bindings from struct-typed inputs ('* = self.w1') are generated in pairs and re-pointed as a semantic edit. Exploration."),
         "level_note": "The run-time refusal (Runtime.ReattachToPipestance) delegates to EquivalentCall after a byte comparison; mutual exclusion of two live mrp processes is part of the E2 tier (not yet built).",
         "rule": "rapid program generator (4 pipelines deep) x one edit; every pair is non-trivial; distinct by hash(original text, edited text); classes: edit kind x depth.",
         "assumptions": ["edits are applied to the generator's IR and printed; an edit that makes the program stop compiling is skipped and counted"],
@@ -371,7 +378,7 @@ CHECKS = {
                        "nulls, 64-bit boundary integers, floats with exponents, strings with escapes / control / non-ASCII characters) x any consistent subset of arguments split over an "
                        "array or a map: BuildCallSource -> InvocationDataFromSource must return the same call, include, split set and arguments (numbers compared as exact decimals), the "
                        "text must compile against the definitions and text -> data -> text must be EquivalentCall both ways. (c) after generated E1 runs, every stage fork's _invocation "
-                       "must compile against _mrosource as a call of that stage whose arguments equal the fork's _args. Exploration."),
+                       "must compile against _mrosource as a call of that stage whose arguments equal the fork's _args. Arguments are serialised in three JSON styles (Go; Python with \\uXXXX escapes incl. surrogate pairs; escaped slashes); call text written by hand with several @include lines (declaring file first / last / reached through an include of an include) is converted to data and back. Exploration."),
         "level_note": "mrg's command line wrapper is not exercised; floats written as >= 20 plain digits are excluded (known finding).",
         "rule": ("(a,b) rapid universe + 1-5 parameters + values (null rate 0/5/20%) + split kind; non-trivial: an argument of struct / typed map / >=2-dimensional array type or a split argument. "
                  "(c) programs and schedules as for C01; non-trivial: >= 2 stage forks checked. Distinct by hash of definitions + call text / program + schedule."),
@@ -386,7 +393,7 @@ CHECKS = {
         "level": "exploration",
         "technique": "property-based testing (rapid): differential against an independent reference validator/filter, idempotence, assignability laws",
         "level_text": ("Generated-input search: ~3e5 (quick) / ~5e6 (thorough) generated (type universe, value) cases per run compared against an "
-                       "independently written reference validator, reference filter and component-wise assignability rules; exploration, not proof."),
+                       "independently written reference validator, reference filter and component-wise assignability rules; Values are serialised in three JSON styles; numbers include 19 tokens at and beyond the ends of the int64 range; whatever the filter returns without a fatal error must be the input with members dropped and integral floats written as integers (checked for non-conforming values too). exploration, not proof."),
         "level_note": "Trusts harness/refsem/types.go as the statement of the conversion rules; encoding/json for parsing outputs.",
         "rule": ("rapid-generated type universes (file types, structs of structs, wider struct variants, arrays <=2 dims, "
                  "typed maps of arrays) x JSON values (conforming to a constructed-assignable source type, single-point "
